@@ -109,7 +109,11 @@ class Gen:
         if i < len(plan) and plan[i] == 'kid' and rng.random() < 0.5:
           i += 1
           ln = f'd{nl[0]}'; nl[0] += 1
-          add_kid(f'{ln}[0]'); add_kid(f'{ln}[1]')
+          r = rng.random()
+          if r < 0.6: a, b = '[0]', '[1]'              # s.d0 = [ A, B ]
+          elif r < 0.8: a, b = '[0][0]', '[0][1]'      # s.d0 = [ [ A, B ] ]
+          else: a, b = '[0][0]', '[1][0]'              # s.d0 = [ [ A ], [ B ] ]
+          add_kid(ln + a); add_kid(ln + b)
         else:
           add_kid(f'c{nk[0]}'); nk[0] += 1
       else:
@@ -222,11 +226,15 @@ def class_source(spec, sfx, out):
   if spec.get('kconst'): L += ['    s.kc = Wire( Bits8 )', '    s.kc //= k']
   lists = {}
   for slot, subspec in kids(spec):
-    m = re.fullmatch(r'(\w+)\[(\d+)\]', slot)
+    m = re.fullmatch(r'(\w+)((?:\[\d+\])+)', slot)
     inst = f'{cname(subspec, sfx)}( k={subspec["k"]} )'     # keyword: set_param merges into the keyword arguments
-    if m: lists.setdefault(m.group(1), []).append(inst)
+    if m: lists.setdefault(m.group(1), {})[tuple(int(x) for x in re.findall(r'\d+', m.group(2)))] = inst
     else: L.append(f'    s.{slot} = {inst}')
-  for ln, insts in lists.items(): L.append(f'    s.{ln} = [ {", ".join(insts)} ]')
+  def nested(d, pre=()):
+    if pre in d: return d[pre]
+    n = 1 + max(k[len(pre)] for k in d if k[:len(pre)] == pre)
+    return '[ ' + ', '.join(nested(d, pre + (i,)) for i in range(n)) + ' ]'
+  for ln, d in lists.items(): L.append(f'    s.{ln} = {nested(d)}')
   if spec.get('caller'):
     L.append('    s.cp = CallerPort()')
     L.append(f'    connect( s.cp, s.{spec["caller"][0]}.ping )')
@@ -325,7 +333,8 @@ def hier(spec, pre=(), params=(), base=()):
   return out
 
 FIELDS = ('comp', 'sig', 'mport', 'blk', 'ff', 'once', 'read', 'write', 'call', 'uu', 'rdu', 'wru', 'mc', 'edge',
-          'net', 'mnet', 'dbuf')
+          'net', 'mnet', 'dbuf', 'lvl', 'obj')
+MODEL_SKIP = ('obj',)      # per-object details of everything (slices, interfaces too): direct oracle only
 
 def split_fields(entries):
   """rendered entries -> {field: sorted list}"""
@@ -344,8 +353,11 @@ def parse_dump(tree):
 def get_obj(top, path):
   o = top
   for tok in path:
-    m = re.fullmatch(r'(\w+)\[(\d+)\]', tok)
-    o = getattr(o, m.group(1))[int(m.group(2))] if m else getattr(o, tok)
+    m = re.fullmatch(r'(\w+)((?:\[\d+\])+)', tok)
+    if m:
+      o = getattr(o, m.group(1))
+      for i in re.findall(r'\d+', m.group(2)): o = o[int(i)]
+    else: o = getattr(o, tok)
   return o
 
 def observe(top):
@@ -393,6 +405,32 @@ def observe(top):
   for k, vs in top.get_signal_adjacency_dict().items():
     E += [f'(edge {node(k)} {node(v)})' for v in vs]
   E += [f'(dbuf {repr(x)})' for x in sigs | top._dsl.all_signals if x._dsl.needs_double_buffer]
+  from pymtl3.dsl import Component, Interface
+  from pymtl3.dsl.NamedObject import NamedObject
+  def nm(f):
+    try:
+      r = f()
+      return repr(r) if r is not None else 'none'
+    except Exception as e:
+      return '<' + type(e).__name__ + '>'
+  for x in top._dsl.all_named_objects | top._collect_all_single():
+    d = x._dsl
+    lvl = getattr(d, 'level', 'absent')
+    if isinstance(x, Component):
+      kind, host = 'comp', repr(x)
+      E.append(f'(lvl {repr(x)} {nm(x.get_component_level)} {nm(x.get_parent_object)} {host})')
+      extra = f'clevel={nm(x.get_component_level)}'
+    else:
+      kind = 'sig' if isinstance(x, Signal) else 'mport' if isinstance(x, MethodPort) else 'ifc' if isinstance(x, Interface) else type(x).__name__
+      host = nm(x.get_host_component)
+      extra = ''
+      if isinstance(x, Signal):
+        extra = f'tls={1 if x.is_top_level_signal() else 0} top_level_signal={nm(x.get_top_level_signal)}'
+      if (isinstance(x, Signal) and x.is_top_level_signal() or isinstance(x, MethodPort)) and nm(x.get_parent_object) == host:
+        E.append(f'(lvl {repr(x)} {lvl} {nm(x.get_parent_object)} {host})')
+    E.append(f'(obj {repr(x)} {kind} level={lvl} parent={nm(x.get_parent_object)} host={host} '
+             f'full_name={"ok" if getattr(d, "full_name", None) == repr(x) else getattr(d, "full_name", None)} '
+             f'my_name={getattr(d, "my_name", None)} {extra})'.replace(' )', ')'))
   for w, net in top.get_all_value_nets():
     E.append(f'(net {node(w) if w is not None else "none"} ({" ".join(sorted(node(x) for x in net))}))')
   for w, net in top.get_all_method_nets():
